@@ -62,6 +62,12 @@ def judge_group(ctx, group, impl, elements, single=None, res=None):
                 ctx.problem('oracle', '`%s` does not show the same leaf paths and amounts as the log (a branch is dropped or an amount changed)' % mode, c,
                             {'impl_leaves': repr(leaves)[:1500], 'spec_leaves': repr(want_leaves)[:1500], 'output': out_of(i).decode('utf-8', 'replace')[:1000]},
                             signature='collapse-drops-branch' if mode == 'bal -c' else 'balance-leaves')
+        # conservation: the top-level rows of every mode add up to everything that was logged
+        top = sum((Fraction(a) for ind, _, a in rows if ind == 0), Fraction(0))
+        logged = sum((Fraction(spec.fmt_fixed(v, 2)) for (ind, _, v) in spec.balance_spec(elements) if ind == 0), Fraction(0))
+        if top != logged:
+            ctx.problem('oracle', '`%s`: the top-level rows add up to %s, the logged quantities to %s' % (mode, top, logged), c,
+                        {'output': out_of(i).decode('utf-8', 'replace')[:1000]}, signature='balance-not-conserved')
         if single is not None:
             tot = sum((v for _, v in elements), Fraction(0))
             if total is None or canon_num(total[0]) != canon_num(spec.fmt_fixed(tot, 2)) or total[1] != single:
